@@ -36,7 +36,7 @@
 From Coq Require Import List Arith NArith ZArith Bool Lia.
 From Coq.Strings Require Import Byte.
 From RimeV Require Import Base.Bytes Eng.Keys Eng.Cand Eng.Menu Eng.Segm Eng.Ctx Eng.Engine Eng.Procs
-     Eng.Api Eng.Oracle Eng.Spec Eng.EditProofs Eng.WfProofs Eng.CommitProofs Eng.InvProofs Eng.TotalFull.
+     Eng.Trans Eng.TransProofs Eng.Api Eng.Oracle Eng.Spec Eng.EditProofs Eng.WfProofs Eng.CommitProofs Eng.InvProofs Eng.TotalFull.
 Import ListNotations.
 
 Definition total_hyps (cfg : config) (translate : bytes -> seginfo -> list cand) : Prop :=
@@ -67,10 +67,10 @@ Proof. intros cfg translate (H1 & H2 & H3) ops. exact (no_null_no_bad_range cfg 
     state (no [ErrFuel]) – from the geometric invariant of WfProofs.v (segments
     contiguous from 0, start <= end <= |composition input|) and [calc_loop_ok]. *)
 Theorem core_total_except_substr :
-  forall cfg translate, total_hyps cfg translate ->
+  forall cfg translate, total_hyps cfg translate -> cf_hist_guard cfg = true ->
   (forall i s c, In c (translate i s) -> si_start s <= c_end c) ->
   forall ops, Forall obs_only_substr (snd (run cfg translate ops)).
-Proof. intros cfg translate (H1 & H2 & H3) Hce ops. exact (only_substr_can_fail cfg translate H1 H2 H3 Hce ops). Qed.
+Proof. intros cfg translate (H1 & H2 & H3) Hg Hce ops. exact (only_substr_can_fail cfg translate H1 H2 H3 Hg Hce ops). Qed.
 
 (** the C05 key alphabet: no crash at all, any translator, both editors *)
 Theorem core_total_edit :
@@ -110,6 +110,7 @@ Theorem core_total_except_substr_synth :
 Proof.
   intros fluid dlog. apply core_total_except_substr.
   - split; [cbn; lia|]. split; [|reflexivity]. intros i s. pose proof (InvProofs.oracle_translate_length i s). cbn. lia.
+  - reflexivity.
   - intros i s c. apply oracle_translate_end.
 Qed.
 
@@ -120,9 +121,16 @@ Qed.
     pos > size, no null dereference, no invalid page range, and
     CalculateSegmentation within its |input| + 1 rounds) *)
 Theorem core_total :
-  forall cfg translate, total_hyps cfg translate -> cands_fit translate ->
+  forall cfg translate, total_hyps cfg translate -> plain_chain cfg -> cands_fit translate ->
   forall ops, forallb not_crash (snd (run cfg translate ops)) = true.
-Proof. intros cfg translate (H1 & H2 & H3) Hf ops. exact (TotalFull.core_total cfg translate H1 H2 H3 Hf ops). Qed.
+Proof. intros cfg translate (H1 & H2 & H3) Hc Hf ops. exact (TotalFull.core_total cfg translate H1 H2 H3 Hc Hf ops). Qed.
+
+(** synth_express / synth_fluid are plain chains (the CommitHistory fact comes from the source) *)
+Lemma synth_plain_chain fluid dlog : plain_chain (synth_cfg fluid dlog).
+Proof. split; [reflexivity|]. split; [reflexivity|]. cbn. intros [H | [H | [H | [H | []]]]]; discriminate H. Qed.
+(** their menus are the oracle translator's lists *)
+Lemma synth_translate_plain fluid dlog i s : synth_translate (synth_cfg fluid dlog) i s = oracle_translate i s.
+Proof. apply all_translate_main_only. reflexivity. Qed.
 
 (** the oracle translator of the synthetic schemas meets the shape hypothesis *)
 Lemma oracle_cands_fit : cands_fit oracle_translate.
@@ -144,17 +152,17 @@ Qed.
 Theorem core_total_synth :
   forall fluid dlog ops, forallb not_crash (snd (run (synth_cfg fluid dlog) oracle_translate ops)) = true.
 Proof.
-  intros fluid dlog. apply core_total; [|exact oracle_cands_fit].
+  intros fluid dlog. apply core_total; [|apply synth_plain_chain | exact oracle_cands_fit].
   split; [cbn; lia|]. split; [|reflexivity]. intros i s. pose proof (InvProofs.oracle_translate_length i s). cbn. lia.
 Qed.
 
 (** C03's exactly-once without the no-crash hypothesis *)
 Theorem exactly_once_total :
-  forall cfg translate, total_hyps cfg translate -> cands_fit translate ->
+  forall cfg translate, total_hyps cfg translate -> plain_chain cfg -> cands_fit translate ->
   forall ops,
     concat (map read_of (snd (run cfg translate ops))) ++ st_commit (fst (run cfg translate ops))
     = concat (deliveries cfg translate (init_state cfg) ops).
-Proof. intros cfg translate Hh Hf ops. apply exactly_once, core_total; assumption. Qed.
+Proof. intros cfg translate Hh Hc Hf ops. apply exactly_once, core_total; assumption. Qed.
 
 (** every observation of every history is a regular one (the state is never poisoned) *)
 Lemma run_from_snoc cfg translate o l : forall s,
@@ -169,37 +177,37 @@ Proof.
 Qed.
 
 Lemma reachable_not_crash cfg translate :
-  total_hyps cfg translate -> cands_fit translate ->
+  total_hyps cfg translate -> plain_chain cfg -> cands_fit translate ->
   forall ops o, not_crash (snd (step cfg translate (fst (run cfg translate ops)) o)) = true.
 Proof.
-  intros Hh Hf ops o.
-  pose proof (core_total cfg translate Hh Hf (ops ++ [o])) as H. unfold run in *.
+  intros Hh Hc Hf ops o.
+  pose proof (core_total cfg translate Hh Hc Hf (ops ++ [o])) as H. unfold run in *.
   destruct (run_from_snoc cfg translate o ops (init_state cfg)) as (_ & E2). rewrite E2, forallb_app in H. apply andb_prop in H as (_ & H).
   cbn in H. rewrite andb_true_r in H. exact H.
 Qed.
 
 (** C03's read theorems in every reachable state, without the no-crash hypothesis *)
 Theorem read_takes_all_total :
-  forall cfg translate, total_hyps cfg translate -> cands_fit translate ->
+  forall cfg translate, total_hyps cfg translate -> plain_chain cfg -> cands_fit translate ->
   forall ops, let s := fst (run cfg translate ops) in
     read_of (snd (step cfg translate s OpGetCommit)) = st_commit s /\
     st_commit (fst (step cfg translate s OpGetCommit)) = [] /\
     (exists v, snd (step cfg translate s OpGetCommit)
                = Obs (RCommit (match st_commit s with [] => None | t => Some t end)) v).
 Proof.
-  intros cfg translate Hh Hf ops. cbv zeta. apply get_commit_step, reachable_not_crash; assumption.
+  intros cfg translate Hh Hc Hf ops. cbv zeta. apply get_commit_step, reachable_not_crash; assumption.
 Qed.
 
 Theorem second_read_empty_total :
-  forall cfg translate, total_hyps cfg translate -> cands_fit translate ->
+  forall cfg translate, total_hyps cfg translate -> plain_chain cfg -> cands_fit translate ->
   forall ops, let s := fst (run cfg translate ops) in
     let r1 := step cfg translate s OpGetCommit in
     let r2 := step cfg translate (fst r1) OpGetCommit in
     read_of (snd r2) = [] /\ exists v, snd r2 = Obs (RCommit None) v.
 Proof.
-  intros cfg translate Hh Hf ops. cbv zeta.
+  intros cfg translate Hh Hc Hf ops. cbv zeta.
   apply second_read_empty; [apply reachable_not_crash; assumption|].
-  pose proof (reachable_not_crash cfg translate Hh Hf (ops ++ [OpGetCommit]) OpGetCommit) as H.
+  pose proof (reachable_not_crash cfg translate Hh Hc Hf (ops ++ [OpGetCommit]) OpGetCommit) as H.
   unfold run in *. destruct (run_from_snoc cfg translate OpGetCommit ops (init_state cfg)) as (E & _).
   rewrite E in H. exact H.
 Qed.
@@ -210,7 +218,7 @@ Qed.
     segment is confirmed and a new empty one opened); GetPreedit then continues
     from end = 10 and calls substr(10, ...) on a 1-byte string. *)
 Definition long_translate (i : bytes) (s : seginfo) : list cand :=
-  match i with [] => [] | _ => [mkCand (si_start s) (si_start s + 10) [x41] [] []] end.
+  match i with [] => [] | _ => [mkCand (si_start s) (si_start s + 10) [x41] [] [] []] end.
 
 Theorem core_total_full_refuted : ~ core_total_full.
 Proof.
